@@ -459,17 +459,24 @@ impl LineProgram {
         }
 
         if op_advance != 0 {
+            // The special opcode for an operation advance, if there is one.
+            let special_for = |op_advance: u64| {
+                op_advance
+                    .checked_mul(line_range)
+                    .and_then(|special_op| special.checked_add(special_op))
+                    .filter(|special| *special <= 255)
+            };
+
             // Using ConstAddPc can save a byte.
-            let (special_op_advance, const_add_pc) = if special + op_advance * line_range <= 255 {
+            let (special_op_advance, const_add_pc) = if special_for(op_advance).is_some() {
                 (op_advance, false)
             } else {
                 let op_range = (255 - special_base) / line_range;
                 (op_advance - op_range, true)
             };
 
-            let special_op = special_op_advance * line_range;
-            if special + special_op <= 255 {
-                special += special_op;
+            if let Some(special_op) = special_for(special_op_advance) {
+                special = special_op;
                 use_special = true;
                 if const_add_pc {
                     self.instructions.push(LineInstruction::ConstAddPc);
